@@ -583,6 +583,17 @@ def h_convert_compound(eng, autoconvert):
             if not autoconvert:
                 eng.fail(f"offset-in-compound-operand:{cname}:{oname}:accepted-without-autoconvert")
             eng.prove(not any(k in ("degA", "degB") for k in r._units), f"offset-in-compound-operand:{cname}:{oname}:offset-unit-left-in-result")
+    # an operand that holds two offset units is never multiplied or divided, in either mode
+    for cname, cu in (("degA*degB", {"degA": 1, "degB": 1}), ("degA/degB", {"degA": 1, "degB": -1}), ("degA*degB*oth", {"degA": 1, "degB": 1, "oth": 1})):
+        q = ureg.Quantity(x, UC(cu))
+        b = ureg.Quantity(y, "oth")
+        for oname, fn in (("q*2", lambda: q * 2), ("2*q", lambda: 2 * q), ("q/2", lambda: q / 2), ("2/q", lambda: 2 / q), ("q*b", lambda: q * b), ("b/q", lambda: b / q), ("q*kel", lambda: q * ureg.Quantity(y, "kel"))):
+            try:
+                fn()
+            except (OffsetUnitCalculusError, DimensionalityError):
+                eng.prove(True, f"two-offset-units-operand:{cname}:{oname}:refused")
+            else:
+                eng.fail(f"two-offset-units-operand:{cname}:{oname}:accepted")
     # delta units are ordinary multiplicative units in compounds
     r = ureg.convert(x, UC({"delta_degA": 1, "oth": -1}), UC({"delta_degB": 1, "oth": -1}))
     eng.prove(Eq(r, x * v["s1"] / v["s2"]), "delta-in-compound")
